@@ -166,7 +166,7 @@ func quotes(measure []byte, blob []byte, tag string) []quoteSpec {
 func main() {
 	r := mc.NewRun("C16")
 	defer kmfx.Cleanup()
-	r.Rule("E1/E5 full product: event log {not configured, unreadable, raw locator, variable locator, URI locator, local-path locator, wrong manufacturer, raw+URI, URI+variable, wrong-raw+URI, variable that cannot be read (absent, denied) alone and with a URI locator in both orders, local-path+URI} x supplied quote {empty, 7 formats with/without the endorsement in the certificate table, cert table only, garbage} x provider {none, quote with/without extras, error} x getter {nil, ok, error} x forced fetch; object names over all measurements of <=2 bytes and 48-byte one-bit neighbours x {3 SEV family ids, TDX}; efivarfs names of <=3 (thorough 4) UCS-2 units over {a . / \\ - NUL} x 3 GUIDs under a scratch root with symlinks; emitted events for a menu of digests; non-trivial = distinct (sources, forced) combinations that returned an endorsement")
+	r.Rule("E1/E5 full product: event log {not configured, unreadable, raw locator, variable locator, URI locator, local-path locator, wrong manufacturer, raw+URI, URI+variable, wrong-raw+URI, variable that cannot be read (absent, denied) alone and with a URI locator in both orders, local-path+URI, 72 logs of several 4 KiB blocks whose deciding locator follows 60 foreign events at every byte alignment} x supplied quote {empty, 7 formats with/without the endorsement in the certificate table, cert table only, garbage} x provider {none, quote with/without extras, error} x getter {nil, ok, error} x forced fetch; object names over all measurements of <=2 bytes and 48-byte one-bit neighbours x {3 SEV family ids, TDX}; efivarfs names of <=3 (thorough 4) UCS-2 units over {a . / \\ - NUL} x 3 GUIDs under a scratch root with symlinks; emitted events for a menu of digests; non-trivial = distinct (sources, forced) combinations that returned an endorsement")
 	scratch := kmfx.ScratchRoot()
 	write := func(name string, b []byte) string {
 		p := filepath.Join(scratch, name)
@@ -193,6 +193,22 @@ func main() {
 		{"uri+variable(absent)", write("el-uri-var-a", mkLog(sp800(g, eventlog.RIMLocationURI, []byte(uriLoc)), sp800(g, eventlog.RIMLocationVariable, rimVar))), nil, uriLoc, false, &fs.PathError{Op: "open", Path: "FirmwareRIM", Err: fs.ErrNotExist}},
 		{"variable(denied)+uri", write("el-var-d-uri", mkLog(sp800(g, eventlog.RIMLocationVariable, rimVar), sp800(g, eventlog.RIMLocationURI, []byte(uriLoc)))), nil, uriLoc, false, &fs.PathError{Op: "open", Path: "FirmwareRIM", Err: fs.ErrPermission}},
 		{"local-path+uri", write("el-local-uri", mkLog(sp800(g, eventlog.RIMLocationLocal, []byte("PciRoot(0)/x")), sp800(g, eventlog.RIMLocationURI, []byte(uriLoc)))), nil, uriLoc, false, nil},
+	}
+	// Long logs (several 4 KiB blocks, as real boot logs are): the deciding raw or variable locator
+	// comes after 60 events of another manufacturer, and the first of those is padded byte by byte
+	// so that, over the 64 logs, every field of the later events falls across a 4096-byte offset in
+	// some log. They are read through the file path like every other log here.
+	for shift := 0; shift < 64; shift++ {
+		filler := []*eventlog.SP800155Event3{sp800("Filler Corp", eventlog.RIMLocationRaw, bytes.Repeat([]byte{0xF1}, shift))}
+		for i := 0; i < 60; i++ {
+			filler = append(filler, sp800("Filler Corp", eventlog.RIMLocationRaw, []byte("filler-event-payload-of-some-length")))
+		}
+		logs = append(logs,
+			logSpec{fmt.Sprintf("long(shift=%d)+raw", shift), write(fmt.Sprintf("el-long-raw-%d", shift), mkLog(append(append([]*eventlog.SP800155Event3(nil), filler...), sp800(g, eventlog.RIMLocationRaw, rawBlob))...)), rawBlob, "", false, nil})
+		if shift%8 == 0 {
+			logs = append(logs,
+				logSpec{fmt.Sprintf("long(shift=%d)+variable", shift), write(fmt.Sprintf("el-long-var-%d", shift), mkLog(append(append([]*eventlog.SP800155Event3(nil), filler...), sp800(g, eventlog.RIMLocationVariable, rimVar))...)), varBlob, "", false, nil})
+		}
 	}
 	qs := append([]quoteSpec{{"empty", nil, nil, nil, "", true}, {"garbage", []byte("\x01\x02garbage that is no attestation\xff\xfe"), nil, nil, "", true}}, quotes(mQuote, localBlob, "")...)
 	pq := quotes(mProvider, provBlob, "p:")
